@@ -23,7 +23,8 @@ inductive Val where
   | num (q : Rat)
   | str (s : List Char)
   | tuple (l : List Val)
-deriving Repr, Inhabited
+  | dict (l : List (Val × Val))
+deriving Inhabited
 
 namespace Val
 
@@ -45,6 +46,7 @@ def beq : Val → Val → Bool
   | .none, .none => true
   | .str a, .str b => a == b
   | .tuple a, .tuple b => beqList a b
+  | .dict a, .dict b => beqPairs a b
   | .bool a, .bool b => a == b
   | .bool a, .num q => (if a then (1 : Rat) else 0) == q
   | .num q, .bool a => q == (if a then (1 : Rat) else 0)
@@ -53,6 +55,10 @@ def beq : Val → Val → Bool
 def beqList : List Val → List Val → Bool
   | [], [] => true
   | a :: as, b :: bs => beq a b && beqList as bs
+  | _, _ => false
+def beqPairs : List (Val × Val) → List (Val × Val) → Bool
+  | [], [] => true
+  | (k, v) :: as, (k', v') :: bs => beq k k' && beq v v' && beqPairs as bs
   | _, _ => false
 end
 
@@ -63,6 +69,7 @@ def truth : Val → Bool
   | .num q => q != 0
   | .str s => !s.isEmpty
   | .tuple l => !l.isEmpty
+  | .dict l => !l.isEmpty
 
 def ofNat (n : Nat) : Val := .num (n : Rat)
 def ofInt (i : Int) : Val := .num (i : Rat)
@@ -168,6 +175,7 @@ def isInfix (p : List Char) : List Char → Bool
 def pyIn (x c : Val) : Res Val :=
   match c, x with
   | .tuple l, _ => .val (.bool (l.any (fun y => Val.beq x y)))
+  | .dict l, _ => .val (.bool (l.any (fun kv => Val.beq x kv.1)))
   | .str s, .str p => .val (.bool (isInfix p s))
   | _, _ => .exc
 def pyNotIn (x c : Val) : Res Val := do
@@ -227,8 +235,23 @@ def pySlice_N (v : Val) (b : Nat) : Res Val :=
 def idxList {α} (l : List α) (i : Int) : Option α :=
   if i < 0 then (if (-i).toNat ≤ l.length then l[l.length - (-i).toNat]? else Option.none) else l[i.toNat]?
 
-/-- `v[i]` -/
+def dictFind (l : List (Val × Val)) (k : Val) : Option Val :=
+  match l.find? (fun kv => Val.beq k kv.1) with
+  | some kv => some kv.2
+  | Option.none => Option.none
+
+/-- `v[i]` (sequence index, or dictionary key: `KeyError` is `exc`) -/
 def pyIdx (v i : Val) : Res Val :=
+  match v, i with
+  | .dict l, _ => (match dictFind l i with
+    | some x => .val x
+    | Option.none => .exc)
+  | .tuple l, .tuple mask =>
+    -- numpy boolean-mask selection `a[mask]` (arrays and lists are one kind of value in the model)
+    if mask.length = l.length ∧ mask.all (fun b => match b with | .bool _ => true | _ => false) then
+      .val (.tuple ((l.zip mask).filterMap (fun p => if p.2.truth then some p.1 else Option.none)))
+    else .exc
+  | _, _ =>
   match i.int? with
   | Option.none => .exc
   | some k =>
@@ -241,6 +264,12 @@ def pyIdx (v i : Val) : Res Val :=
       | Option.none => .exc
     | _ => .exc
 
+/-- look-up of the numeric key `k` in a dictionary (`KeyError` is `exc`) -/
+def dictGetNat (l : List (Val × Val)) (k : Nat) : Res Val :=
+  match l.find? (fun kv => Val.beq (ofNat k) kv.1) with
+  | some kv => .val kv.2
+  | Option.none => .exc
+
 /-- `v[k]` with a literal non-negative index -/
 def pyIdxN (v : Val) (k : Nat) : Res Val :=
   match v with
@@ -250,12 +279,14 @@ def pyIdxN (v : Val) (k : Nat) : Res Val :=
   | .tuple l => match l[k]? with
     | some x => .val x
     | Option.none => .exc
+  | .dict l => dictGetNat l k   -- a dictionary keyed by numbers
   | _ => .exc
 
 def pyLen (v : Val) : Res Val :=
   match v with
   | .str s => .val (ofNat s.length)
   | .tuple l => .val (ofNat l.length)
+  | .dict l => .val (ofNat l.length)
   | _ => .exc
 
 /-! ### builtins -/
@@ -367,6 +398,310 @@ def pyCharsSubset (x y : Val) : Res Val :=
   match x, y with
   | .str a, .str b => .val (.bool (a.all (fun c => b.contains c)))
   | _, _ => .exc
+
+/-! ### dictionaries, iteration, comprehensions -/
+
+/-- `d.get(k, default)` -/
+def pyDictGet (d k dflt : Val) : Res Val :=
+  match d with
+  | .dict l => .val ((dictFind l k).getD dflt)
+  | _ => .exc
+
+def setPair (k v : Val) : List (Val × Val) → List (Val × Val)
+  | [] => [(k, v)]
+  | (k', v') :: rest => if Val.beq k k' then (k', v) :: rest else (k', v') :: setPair k v rest
+
+/-- `x[i] = v` as a functional update (a list index must exist; a dictionary key is added or replaced) -/
+def pySetItem (x i v : Val) : Res Val :=
+  match x with
+  | .dict l => .val (.dict (setPair i v l))
+  | .tuple l =>
+    (match i.int? with
+    | some k =>
+      let n := l.length
+      if k < 0 then (if (-k).toNat ≤ n then .val (.tuple (l.set (n - (-k).toNat) v)) else .exc)
+      else if k.toNat < n then .val (.tuple (l.set k.toNat v)) else .exc
+    | Option.none => .exc)
+  | _ => .exc
+
+/-- `x.append(v)` / `x.extend(v)` as functional updates -/
+def pyAppend (x v : Val) : Res Val :=
+  match x with
+  | .tuple l => .val (.tuple (l ++ [v]))
+  | _ => .exc
+
+def pyIsInstance (x : Val) (t : Val) : Res Val :=
+  match t with
+  | .str n =>
+    let s := String.ofList n
+    .val (.bool (match x with
+      | .dict _ => s == "dict"
+      | .str _ => s == "str"
+      | .tuple _ => s == "list" || s == "tuple"
+      | .bool _ => s == "bool" || s == "int"
+      | .num q => (s == "int" && q.den == 1) || s == "float"
+      | .none => false))
+  | _ => .exc
+
+/-- `chr(n)` -/
+def pyChr (v : Val) : Res Val :=
+  match v.int? with
+  | some (.ofNat n) => .val (.str [Char.ofNat n])
+  | _ => .exc
+
+/-- `del x[k]` as a functional update -/
+def pyDelItem (x k : Val) : Res Val :=
+  match x with
+  | .dict l => if l.any (fun kv => Val.beq k kv.1) then .val (.dict (l.filter (fun kv => !Val.beq k kv.1))) else .exc
+  | _ => .exc
+
+/-- `d.keys()` (as a list) -/
+def pyKeys (d : Val) : Res Val :=
+  match d with
+  | .dict l => .val (.tuple (l.map (·.1)))
+  | _ => .exc
+
+/-- a statement of the source that the translator could not express: the model gives up with an exception if this
+    path is taken (the function is listed as partially translated in status.json) -/
+def pyUnmodelled {α} (_reason : String) : Res α := .exc
+
+/-- the items a `for` loop / comprehension sees -/
+def pyIter (v : Val) : Res (List Val) :=
+  match v with
+  | .tuple l => .val l
+  | .str s => .val (s.map (fun c => .str [c]))
+  | .dict l => .val (l.map (·.1))
+  | _ => .exc
+
+def pyExtend (x v : Val) : Res Val := do
+  let l ← pyIter v
+  match x with
+  | .tuple a => pure (.tuple (a ++ l))
+  | _ => .exc
+
+/-- `zip(a, b)` (as a list of pairs) -/
+def pyZip (a b : Val) : Res Val := do
+  let la ← pyIter a
+  let lb ← pyIter b
+  pure (.tuple ((la.zip lb).map (fun p => .tuple [p.1, p.2])))
+
+/-- iterations granted to a `while` loop of the source before the model gives up (reported as an exception) -/
+def whileFuel : Nat := 1048576
+
+/-- `range(a, b)` (as a list) -/
+def pyRange (a b : Val) : Res Val :=
+  match a.int?, b.int? with
+  | some x, some y => .val (.tuple ((List.range (y - x).toNat).map (fun (i : Nat) => .num ((x + (i : Int) : Int) : Rat))))
+  | _, _ => .exc
+
+/-- `range(a, b, step)` for a non-zero step -/
+def pyRange3 (a b st : Val) : Res Val :=
+  match a.int?, b.int?, st.int? with
+  | some x, some y, some s =>
+    if s = 0 then .exc else
+    let n : Nat := if s > 0 then ((y - x + s - 1) / s).toNat else ((x - y + (-s) - 1) / (-s)).toNat
+    .val (.tuple ((List.range n).map (fun (i : Nat) => .num ((x + (i : Int) * s : Int) : Rat))))
+  | _, _, _ => .exc
+
+def enumFrom (i : Nat) : List Val → List Val
+  | [] => []
+  | x :: xs => .tuple [ofNat i, x] :: enumFrom (i + 1) xs
+
+/-- `enumerate(v)` (as a list of pairs) -/
+def pyEnumerate (v : Val) : Res Val := do
+  let l ← pyIter v
+  pure (.tuple (enumFrom 0 l))
+
+/-- `list(v)` / `tuple(v)` -/
+def pyList (v : Val) : Res Val := do
+  let l ← pyIter v
+  pure (.tuple l)
+
+/-- `next(iter(v))`: `StopIteration` is `exc`.  (A generator expression is evaluated eagerly here: an exception that the
+    lazy original would not reach is reported; the generated functions are compared with Python on every run.) -/
+def pyNext (v : Val) : Res Val :=
+  match v with
+  | .tuple (x :: _) => .val x
+  | _ => .exc
+
+/-- `[f(x) for x in v if …]`: `f` returns `none` for a filtered-out item -/
+def compList (f : Val → Res (Option Val)) : List Val → Res (List Val)
+  | [] => .val []
+  | x :: xs =>
+    match f x with
+    | .val o =>
+      (match compList f xs with
+      | .val r => .val (match o with | some y => y :: r | Option.none => r)
+      | .rte => .rte
+      | .exc => .exc)
+    | .rte => .rte
+    | .exc => .exc
+
+def pyComp (v : Val) (f : Val → Res (Option Val)) : Res Val := do
+  let l ← pyIter v
+  let r ← compList f l
+  pure (.tuple r)
+
+def chunks (n : Nat) (fuel : Nat) (s : List Char) : List (List Char) :=
+  match fuel, s with
+  | _, [] => []
+  | 0, _ => []
+  | fuel + 1, s => s.take n :: chunks n fuel (s.drop n)
+
+/-- `textwrap.wrap(s, n)` on a string without blanks: consecutive pieces of `n` characters -/
+def pyWrap (v n : Val) : Res Val :=
+  match v, n.int? with
+  | .str s, some (.ofNat (k + 1)) => .val (.tuple ((chunks (k + 1) s.length s).map .str))
+  | _, _ => .exc
+
+def argBest (better : Rat → Rat → Bool) : List Val → Nat → Option (Nat × Rat) → Option (Nat × Rat)
+  | [], _, acc => acc
+  | x :: xs, i, acc =>
+    match x.num?, acc with
+    | some q, Option.none => argBest better xs (i + 1) (some (i, q))
+    | some q, some (j, b) => argBest better xs (i + 1) (if better q b then some (i, q) else some (j, b))
+    | Option.none, _ => Option.none
+
+/-- `min(range(n), key=seq.__getitem__)`: index of the first smallest of the first `n` items -/
+def pyArgMin (seq n : Val) : Res Val :=
+  match seq, n.int? with
+  | .tuple l, some (.ofNat k) =>
+    if l.length < k ∨ k = 0 then .exc else
+    (match argBest (fun q b => decide (q < b)) (l.take k) 0 Option.none with
+    | some (i, _) => .val (ofNat i)
+    | Option.none => .exc)
+  | _, _ => .exc
+
+def pyArgMax (seq n : Val) : Res Val :=
+  match seq, n.int? with
+  | .tuple l, some (.ofNat k) =>
+    if l.length < k ∨ k = 0 then .exc else
+    (match argBest (fun q b => decide (b < q)) (l.take k) 0 Option.none with
+    | some (i, _) => .val (ofNat i)
+    | Option.none => .exc)
+  | _, _ => .exc
+
+def pyMinList (v : Val) : Res Val :=
+  match v with
+  | .tuple l => (match argBest (fun q b => decide (q < b)) l 0 Option.none with
+    | some (i, _) => (match l[i]? with | some x => .val x | Option.none => .exc)
+    | Option.none => .exc)
+  | _ => .exc
+
+def pyMaxList (v : Val) : Res Val :=
+  match v with
+  | .tuple l => (match argBest (fun q b => decide (b < q)) l 0 Option.none with
+    | some (i, _) => (match l[i]? with | some x => .val x | Option.none => .exc)
+    | Option.none => .exc)
+  | _ => .exc
+
+def rowsOf {α} (w : Nat) (fuel : Nat) (l : List α) : List (List α) :=
+  match fuel, l with
+  | _, [] => []
+  | 0, _ => []
+  | fuel + 1, l => l.take w :: rowsOf w fuel (l.drop w)
+
+/-- `np.array(l).reshape(-1, w)`: rows of `w` items (`ValueError` unless the length is a multiple of `w`) -/
+def pyReshapeRows (v w : Val) : Res Val :=
+  match v, w.int? with
+  | .tuple l, some (.ofNat (k + 1)) =>
+    if l.length % (k + 1) ≠ 0 then .exc else .val (.tuple ((rowsOf (k + 1) l.length l).map .tuple))
+  | _, _ => .exc
+
+/-- `rows.mean(axis=1)` (exact mean of each row) -/
+def pyMeanRows (v : Val) : Res Val :=
+  match v with
+  | .tuple rows =>
+    (match rows.mapM (fun r => match r with
+        | Val.tuple xs => (match xs.mapM Val.num? with
+          | some qs => if qs.isEmpty then Option.none else some (Val.num (qs.foldl (· + ·) 0 / (qs.length : Rat)))
+          | Option.none => Option.none)
+        | _ => Option.none) with
+    | some ms => .val (.tuple ms)
+    | Option.none => .exc)
+  | _ => .exc
+
+def strLt : List Char → List Char → Bool
+  | [], [] => false
+  | [], _ :: _ => true
+  | _ :: _, [] => false
+  | a :: as, b :: bs => if a < b then true else if b < a then false else strLt as bs
+
+def insertSorted (x : List Char) : List (List Char) → List (List Char)
+  | [] => [x]
+  | y :: ys => if strLt y x ∨ y = x then y :: insertSorted x ys else x :: y :: ys
+
+/-- `sorted(v)` for a list of strings -/
+def pySorted (v : Val) : Res Val :=
+  match v with
+  | .tuple l =>
+    (match l.mapM (fun x => match x with | Val.str s => some s | _ => Option.none) with
+    | some ss => .val (.tuple ((ss.foldr insertSorted []).map .str))
+    | Option.none => .exc)
+  | _ => .exc
+
+/-- `sep.join(v)` for a list of strings -/
+def pyJoin (sep v : Val) : Res Val :=
+  match sep, v with
+  | .str s, .tuple l =>
+    (match l.mapM (fun x => match x with | Val.str t => some t | _ => Option.none) with
+    | some ss => .val (.str (s.intercalate ss))
+    | Option.none => .exc)
+  | _, _ => .exc
+
+/-- `"pre{}post".format(x)` for an integer or string `x` -/
+def pyFormat1 (pre x post : Val) : Res Val := do
+  let sx ← pyStr x
+  pyAdd (← pyAdd pre sx) post
+
+/-! ### objects: an instance is the dictionary of its attributes; methods thread it through -/
+
+def attrKey (name : String) : Val := .str name.toList
+
+/-- `obj.name` (`AttributeError` is `exc`) -/
+def pyGetAttr (obj : Val) (name : String) : Res Val :=
+  match obj with
+  | .dict l => (match dictFind l (attrKey name) with
+    | some x => .val x
+    | Option.none => .exc)
+  | _ => .exc
+
+/-- `obj.name = v` as a functional update -/
+def pySetAttr (obj : Val) (name : String) (v : Val) : Res Val :=
+  match obj with
+  | .dict l => .val (.dict (setPair (attrKey name) v l))
+  | _ => .exc
+
+/-- `obj.<collaborator>.<method>(args)`: an effect on a pipe / socket / queue the model does not contain; it is
+    recorded, in order, under the attribute `__out__` of the object -/
+def pyEmit (obj : Val) (label : String) (args : Val) : Res Val :=
+  match obj with
+  | .dict l =>
+    let old := match dictFind l (attrKey "__out__") with
+      | some (.tuple es) => es
+      | _ => []
+    .val (.dict (setPair (attrKey "__out__") (.tuple (old ++ [.tuple [attrKey label, args]])) l))
+  | _ => .exc
+
+/-! ### exceptions (`try` / `except`) -/
+
+/-- which Python exceptions an `except` clause catches: `RuntimeError`, any *other* class (KeyError, ValueError, …:
+    the model does not tell them apart), or everything -/
+inductive Err where
+  | rte | exc | any
+deriving DecidableEq, Repr
+
+def Err.caughtBy (raised handler : Err) : Bool :=
+  match handler with
+  | .any => true
+  | h => raised == h
+
+instance : MonadExcept Err Res where
+  throw e := match e with | .rte => .rte | _ => .exc
+  tryCatch x h := match x with
+    | .val a => .val a
+    | .rte => h .rte
+    | .exc => h .exc
 
 /-- `if c:` -/
 @[inline] def pyTruth (v : Val) : Bool := v.truth
